@@ -179,10 +179,13 @@ def repeat_ids_among_kept(rng, t):
         shadow = snapshot.from_plain(Node, plain)
         order = snapshot.walk(shadow)
         try:
-            model_prune(shadow, strict)
+            removed = model_prune(shadow, strict)
         except Exception:
             emlkit.discard(shadow)
             return t, False
+        if 0 in removed:
+            emlkit.discard(*order)
+            return t, False       # the root itself goes: nothing stays
         still = {id(x) for x in snapshot.walk(shadow)}
         k = {i for i, x in enumerate(order) if id(x) in still}
         kept = k if kept is None else kept & k
